@@ -54,7 +54,29 @@ def doOp (d : DS) (o : Op) : DS × List String :=
   let d := { d with s := r.1 }
   (d, [match r.2 with | some rc => s!"ret {rc}" | none => "ret skip"] ++ obs d)
 
-def sigStep (d : DS) : List String → DS × List String
+/-- rebuild the function-valued fields from tables (the model updates them by wrapping closures; after
+thousands of deliveries every lookup would walk the whole history).  Extensionally the identity on the
+handles / loops / signals the protocol can name. -/
+def compact (d : DS) : DS :=
+  let s := d.s
+  let hsA := (Array.range d.nh).map s.hs
+  let pA := (Array.range d.nl).map s.pipes
+  let qA := (Array.range d.nl).map s.closingQ
+  let dA := (Array.range 65).map s.disp
+  let dlA := (Array.range 65).map s.delivered
+  { d with s := { s with hs := fun i => hsA.getD i (s.hs i), pipes := fun L => pA.getD L [],
+                         closingQ := fun L => qA.getD L [], disp := fun g => dA.getD g .dflt,
+                         delivered := fun g => dlA.getD g false } }
+
+/-- `burst sig n`: n guarded raises in a row; returns how many were really raised -/
+def burstN (g : Nat) : Nat → DS → Nat → DS × Nat
+  | 0, d, k => (d, k)
+  | n + 1, d, k =>
+    match d.s.disp g with
+    | .dflt => (d, k)
+    | _ => burstN g n (compact { d with s := deliver d.s g }) (k + 1)
+
+def sigStep0 (d : DS) : List String → DS × List String
   | "init" :: nl :: ls =>
     let nl' := nat! nl
     if d.nl ≠ 0 || nl' < 1 || nl' > 8 || ls.length > 32 || ls.any (fun l => l.toNat?.isNone || nat! l ≥ nl') then (d, ["bad-op"]) else
@@ -67,6 +89,10 @@ def sigStep (d : DS) : List String → DS × List String
     match d.s.disp (nat! g) with
     | .dflt => (d, ["raise skipped-default"] ++ obs d)
     | _ => let d := { d with s := deliver d.s (nat! g) }; (d, ["raised"] ++ obs d)
+  | ["burst", g, n] =>
+    if !sigs.contains (nat! g) || n.toNat?.isNone then (d, ["bad-op"]) else
+    let (d, k) := burstN (nat! g) (nat! n) d 0
+    (d, [s!"raised {k}"] ++ obs d)
   | ["run", l] =>
     if l.toNat?.isNone || nat! l ≥ d.nl then (d, ["bad-op"]) else
     let sc : Script := fun k => ((d.script.find? (·.1 = k)).map (·.2)).getD []
@@ -104,6 +130,10 @@ def sigStep (d : DS) : List String → DS × List String
     | none => (d, ["bad-op"])
   | [] => (d, [])
   | _ => (d, ["bad-op"])
+
+def sigStep (d : DS) (ws : List String) : DS × List String :=
+  let r := sigStep0 d ws
+  (compact r.1, r.2)
 
 /-- (mode name, action).  `uvdriver <mode>` runs the action (normally `runLines init step`). -/
 def modes : List (String × IO Unit) := [("signal", runLines ({} : DS) sigStep)]
